@@ -66,6 +66,9 @@ T = {
     "C20": ("reference-model monitor: generator-owned EOS parameters as smooth functions of T -> exact-EOS free energies -> PhonopyQHA must return V0(T), G(T), B0(T), documented finite-difference thermal expansion and C_P; defining meaning of each EOS parameter by Richardson-extrapolated central differences",
             "Held on the executions produced: 3 EOS x 60 (quick) / 600 (thorough) parameter sets for the defining identities; 3 EOS x parameter sets x 5..15-point volume grids x pressures {none,0,+-5,30 GPa} x electronic energies of shape (V) and (T,V) x t_max choices; static BulkModulus fit.",
             "scipy from the offline wheelhouse; exact-EOS input so the least-squares minimum is the generating parameter set", "3/C20"),
+    "C18": ("process-boundary monitor: phonopy / phonopy-load run as subprocesses (contracts active inside them) through complete workflows, every written file compared at its measured printed precision with library calls on the same input files; settings-object monitor over every row of the option<->tag table parsed from doc/command-options.md at run time, for both commands; option route vs configuration-file route byte-identical outputs; final phonopy.yaml reloaded",
+            "Held on the executions produced: 5 (quick) / 8 (thorough) crystals incl. NAC and magnetic cells x both commands x {-d, -f, mesh, thermal properties, DOS, PDOS, band, q-points, writefc/readfc, NAC}; 142 table rows x 2 commands. Documented options that the parser does not accept are listed in the evidence.",
+            "symfc absent: phonopy-load always run with --fc-calc traditional; only VASP outputs synthesised for -f; hand-written value catalogue for valued tags", "3/C18"),
 }
 
 NA_REASON = "check not built yet in this round (runtime-monitoring driver pending); no claim is made"
